@@ -114,7 +114,8 @@ class RequestHandler:
                 except DecodeError as err:
                     # we have to decode 'origin' here
                     # use latin-1, as utf-8 or ascii may lead to encoding errors
-                    msg = err.raw_msg.decode('latin-1').split(' ', 3) + [
+                    # strip as decode_msg does, so that action and specifier are echoed
+                    msg = err.raw_msg.strip().decode('latin-1').split(' ', 3) + [
                         None
                     ]  # make sure len(msg) > 1
                     result = (
